@@ -182,6 +182,9 @@ func (nz *normalizer) sqlToBindvar(node SQLNode) *querypb.BindVariable {
 			v, err = sqltypes.NewValue(sqltypes.Int64, node.Val)
 		case FloatVal:
 			v, err = sqltypes.NewValue(sqltypes.Float64, node.Val)
+		case PgEscapeString:
+			// E'...' strings are literals too
+			v, err = sqltypes.NewValue(sqltypes.VarBinary, node.Val)
 		default:
 			return nil
 		}
